@@ -104,7 +104,15 @@ def main():
             if os.path.exists(os.path.join(root, prop, v + ".diff")):
                 if only and (prop + v) not in only:
                     continue
-                props = ALL if props_arg == "all" else [prop] if props_arg == "own" else props_arg.split(",")
+                own = prop
+                if own not in ALL:
+                    # directories not named after a property: the target is in the meta file
+                    try:
+                        own = json.load(open(os.path.join(root, prop, "meta_%s.json" % v))).get("property", "")
+                    except Exception:
+                        own = ""
+                own_list = [own] if own in ALL else ALL
+                props = ALL if props_arg == "all" else own_list if props_arg == "own" else props_arg.split(",")
                 work.append((root, prop, v, props, tier))
     os.makedirs("/tmp/mut/eval", exist_ok=True)
     with ThreadPoolExecutor(max_workers=jobs) as ex:
